@@ -242,6 +242,9 @@ def build(v):
     raise ValueError(k)
 
 
+_SUB = [0]
+
+
 def typed_case(c):
     if c.get('pp'):
         pp_begin()
@@ -259,8 +262,19 @@ def typed_case0(c):
     out = {}
     cls = get_class(t)
     out['src'] = SOURCES[-1] if c.get('want_src') else None
+    if c.get('sub_of') is not None and c['x'][0] == 'o':
+        # the class of this case is a SUBCLASS (same fields, its own CONSTR_ID) of a class with another constructor id, and an
+        # instance of the PARENT is built, serialized and hashed first: what the parent class remembers is not the child's
+        parent = get_class(['cls', c['sub_of'], t[2]])
+        _SUB[0] += 1
+        cls = dataclass(unsafe_hash=True)(type(f'Sub{_SUB[0]}_{t[1]}', (parent,), {'CONSTR_ID': t[1], '__annotations__': {}}))
+        try:
+            px = parent(*[build(v) for v in c['x'][3]])
+            px.to_cbor(); px.hash(); px.to_dict()
+        except Exception:
+            pass
     try:
-        x = build(c['x'])
+        x = build(c['x']) if c.get('sub_of') is None or c['x'][0] != 'o' else cls(*[build(v) for v in c['x'][3]])
     except Exception as e:
         # the value is refused (long-bytes guard, unhashable key): the routes that need the object do not exist;
         # decoding the reference bytes of its content needs the class only
